@@ -89,6 +89,13 @@ def _accepts(cls, data, sender):
 
 
 class R7(ARig):
+    handler_delay = 0.0  # the client's event handler may suspend (a slow application callback)
+
+    async def _on_event(self, event, **kw):
+        self.events.append(event)
+        if self.handler_delay and self.spa.is_connected:
+            await asyncio.sleep(self.handler_delay)
+
     def __init__(self, chooser=None, window=0.0):
         self.items = []
         self.qlog = []  # ('put'|'pop', t, id, task, ok, head residence)
@@ -167,8 +174,9 @@ class R7(ARig):
         return None
 
 
-def _run(ch, seq, offs, waiter, window):
+def _run(ch, seq, offs, waiter, window, hdelay=0.0):
     rig = R7(ch, window)
+    rig.handler_delay = hdelay
     if rig.failure is not None:
         # the fault-free handshake did not complete: judge the dispatch seen so far
         why = rig.dispatch_violation()
@@ -242,7 +250,14 @@ def _run(ch, seq, offs, waiter, window):
         evs = [e.name for e in rig.events[ev0:]]
         exp_ev = sorted(["ERROR_RF_ERROR"] * sum(1 for i in seq if ALPHABET[i][0] == "rferr")
                         + ["RUNNING_SPA_WATER_CARE_ERROR"] * sum(1 for i in seq if ALPHABET[i][0] == "wcerr"))
-        if sorted(evs) != exp_ev:
+        if hdelay:
+            # while the callback is suspended its consumer does not poll: a further RFERR/WCERR may be
+            # discarded as unhandled (allowed); but never more events than arrivals, never zero for one
+            from collections import Counter
+            ce, cx = Counter(evs), Counter(exp_ev)
+            if any(ce[k] > cx[k] for k in ce) or any(cx[k] and not ce[k] for k in cx):
+                why = ("events", f"events {evs} for arrivals {[NAMES[i] for i in seq]} (slow handler)")
+        elif sorted(evs) != exp_ev:
             why = ("events", f"events {evs} for arrivals {[NAMES[i] for i in seq]}")
         if not n_good and rig.observed:
             why = ("observers", f"observers fired {rig.observed[:2]} without an addressed update")
@@ -259,16 +274,18 @@ def _run(ch, seq, offs, waiter, window):
 
 
 def _job(job):
-    (seq, offs, waiter, window), prefix = job
+    prefix = job[1]
+    seq, offs, waiter, window = job[0][:4]
+    hdelay = job[0][4] if len(job[0]) > 4 else 0.0
 
     def body(ch):
-        why, obs = _run(ch, seq, offs, waiter, window)
+        why, obs = _run(ch, seq, offs, waiter, window, hdelay)
         viol = []
         if why:
             dev = [(k, c) for k, n, c in ch.trace if c]
             viol.append((f"C07|{why[0]}|first={NAMES[seq[0]]}|waiter={waiter}",
                          f"arrivals {[NAMES[i] for i in seq]} offsets {list(offs)} waiter={waiter} deviations {dev}: {why[1]}",
-                         {"seq": list(seq), "offs": list(offs), "waiter": waiter, "window": window,
+                         {"seq": list(seq), "offs": list(offs), "waiter": waiter, "window": window, "hdelay": hdelay,
                           "prefix": [list(p) for p in ch.trace]}))
         return {"violations": viol, "obs": obs, "end": obs}
 
@@ -284,6 +301,17 @@ def run(ctx):
         for a, b in itertools.product(range(n), repeat=2):
             for o in OFFS:
                 plans.append(((a, b), (o,), w, 0.0))
+    # slow application event handler (RF-error / watercare-error callbacks suspend 0.25 s)
+    ev_idx = [i for i, a in enumerate(ALPHABET) if a[0] in ("rferr", "wcerr")]
+    for e in ev_idx:
+        plans.append(((e,), (), "none", 0.0, 0.25))
+        for b in range(n):
+            for o in OFFS + [0.25]:
+                plans.append(((e, b), (o,), "none", 0.0, 0.25))
+                plans.append(((b, e), (o,), "none", 0.0, 0.25))
+        for b, c in itertools.product(range(n), repeat=2):
+            if not ctx.quick or (b + c) % 3 == 0:
+                plans.append(((e, b, c), (0.05, 0.1), "none", 0.0, 0.25))
     l3 = list(itertools.product(range(n), repeat=3))
     if ctx.quick:
         for s in l3:
@@ -334,7 +362,8 @@ def run(ctx):
 
 
 def replay(ctx, data):
-    res = _job(((tuple(data["seq"]), tuple(data["offs"]), data["waiter"], data["window"]), [tuple(p) for p in data["prefix"]]))
+    res = _job(((tuple(data["seq"]), tuple(data["offs"]), data["waiter"], data["window"], data.get("hdelay", 0.0)),
+                [tuple(p) for p in data["prefix"]]))
     ctx.merge_violations(res["violations"])
     ctx.set("states", 1)
     ctx.set("transitions", 1)
